@@ -62,10 +62,14 @@ class TaskGroup(TaskConstraint):
             self._scheduled_assertion = []
 
         for task in self.list_of_tasks:
-            self._scheduled_assertion += [
-                task._start >= self._start,
-                task._end <= self._end,
-            ]
+            inside_group = [task._start >= self._start, task._end <= self._end]
+            if task.optional:
+                # an optional task only belongs to the group when it is scheduled
+                self._scheduled_assertion.append(
+                    z3.Implies(task._scheduled, z3.And(inside_group))
+                )
+            else:
+                self._scheduled_assertion += inside_group
 
 
 class UnorderedTaskGroup(TaskGroup):
@@ -86,18 +90,19 @@ class OrderedTaskGroup(TaskGroup):
         super().__init__(**data)
         # add a constraint between each task
         for i in range(len(self.list_of_tasks) - 1):
+            task_before, task_after = self.list_of_tasks[i], self.list_of_tasks[i + 1]
             if self.kind == "lax":
-                self._scheduled_assertion += [
-                    self.list_of_tasks[i]._end <= self.list_of_tasks[i + 1]._start
-                ]
+                order = task_before._end <= task_after._start
             elif self.kind == "strict":
-                self._scheduled_assertion += [
-                    self.list_of_tasks[i]._end < self.list_of_tasks[i + 1]._start
-                ]
+                order = task_before._end < task_after._start
             else:  # kind == 'tight':
-                self._scheduled_assertion += [
-                    self.list_of_tasks[i]._end == self.list_of_tasks[i + 1]._start
-                ]
+                order = task_before._end == task_after._start
+            if task_before.optional or task_after.optional:
+                # the order only applies when both tasks are scheduled
+                order = z3.Implies(
+                    z3.And(task_before._scheduled, task_after._scheduled), order
+                )
+            self._scheduled_assertion.append(order)
 
         self.set_z3_assertions(z3.And(self._scheduled_assertion))
 
